@@ -27,14 +27,24 @@ def s_dac(draw):
             "sps": draw(st.one_of(st.integers(2, 128), st.sampled_from([2, 3, 4, 5, 7, 8, 15, 16, 17, 127, 128]))),
             "Vout": draw(volt.filter(lambda v: v != 0)), "bias": draw(st.one_of(volt, st.just(0.0), st.just(0))),
             "shape": draw(st.sampled_from(["nrz", "rect", "NRZ", "rz", "RZ"])), "k": draw(st.integers(0, 127)),
-            "nseed": draw(st.integers(0, 2 ** 31 - 1))}
+            "nseed": draw(st.integers(0, 2 ** 31 - 1)), "prior": draw(st.booleans())}
 
 
 def e_dac(c):
     reset()
     sps = c["sps"]
-    gv(sps=sps, R=1e9)
     bits = np.array(c["bits"])
+    prior = "-"
+    if c.get("prior"):
+        # an earlier frame in the same process with the SAME number of samples but another slot width (same shape family)
+        tot = len(bits) * sps
+        divs = [d for d in range(2, 129) if tot % d == 0 and d != sps]
+        if divs:
+            sps0 = divs[c["nseed"] % len(divs)]
+            gv(sps=sps0, R=1e9)
+            lib(D.DAC, np.random.RandomState(c["nseed"]).randint(0, 2, tot // sps0), 0.25, -1.5, c["shape"])
+            prior = "prior-frame-same-size-other-sps"
+    gv(sps=sps, R=1e9)
     Vout, bias = c["Vout"], c["bias"]
     arg = container(bits, c["form"])
     g = Guard()
@@ -80,7 +90,7 @@ def e_dac(c):
         rec = ((smp - (bias + Vout / 2)) * np.sign(Vout) > 0).astype(int)
         check(np.array_equal(rec, bits), "sampled-bits!=input", f"shape={c['shape']} k={k} sps={sps} Vout={Vout} bias={bias}")
     nt = sps % 2 == 1 or (bias != 0 and Vout < 0) or rz
-    return {"nontrivial": bool(nt), "classes": [c["shape"].lower(), c["form"], "odd-sps" if sps % 2 else "even-sps", "neg-Vout" if Vout < 0 else "pos-Vout"]}
+    return {"nontrivial": bool(nt), "classes": [c["shape"].lower(), c["form"], "odd-sps" if sps % 2 else "even-sps", "neg-Vout" if Vout < 0 else "pos-Vout", prior]}
 
 
 @st.composite
@@ -150,10 +160,10 @@ def e_err(c):
         raises(ValueError, D.DAC, bits, big, 1.0, tag="bias-out-of-range-accepted")
         raises(ValueError, D.DAC, bits, 48.0 * c["sign"], 1.0, tag="bias-out-of-range-accepted")
     elif w == "Vout-type":
-        for v in ("5", 1 + 1j, [1.0], (2,)):
+        for v in ("5", 1 + 1j, [1.0], (2,), 5 + 0j, 0j, complex(0.5, 0.0), np.complex128(1 + 0j), None.__class__):
             raises(TypeError, D.DAC, bits, 0.0, v, tag="Vout-type-accepted")
     elif w == "bias-type":
-        for v in ("5", 1 + 1j, [1.0]):
+        for v in ("5", 1 + 1j, [1.0], 1 + 0j, 0j, np.complex128(2 + 0j)):
             raises(TypeError, D.DAC, bits, v, 1.0, tag="bias-type-accepted")
     elif w == "T-float":
         raises(TypeError, D.DAC, bits, 0.0, 1.0, "gaussian", T=float(sps), tag="T-float-accepted")
@@ -171,7 +181,8 @@ def e_err(c):
     elif w == "m-neg":
         raises(ValueError, D.DAC, bits, 0.0, 1.0, "gaussian", m=-1, tag="m-out-of-range-accepted")
     elif w == "c-complex":
-        raises(TypeError, D.DAC, bits, 0.0, 1.0, "gaussian", c=1j, tag="c-type-accepted")
+        for v in (1j, 0.5 + 0j, 0j, np.complex128(1 + 0j)):
+            raises(TypeError, D.DAC, bits, 0.0, 1.0, "gaussian", c=v, tag="c-type-accepted")
     elif w == "c-str":
         raises(TypeError, D.DAC, bits, 0.0, 1.0, "gaussian", c="0.5", tag="c-type-accepted")
     else:
